@@ -109,15 +109,33 @@ def ignoredM (env : FeatEnv) (m : Meta) (parentSt : Nat) : Except String Bool :=
 
 mutual
 /-- the names in the child map of a node with these built children (choices flattened) -/
-def flatNames : List CN → List Tok
+def dataNames : List CN → List Tok
   | [] => []
   | .mk a kids :: r =>
-    (if a.kind = .choice then flatCaseNames kids else [a.name]) ++ flatNames r
-def flatCaseNames : List CN → List Tok
+    (if a.kind = .choice then dataCaseNames kids else [a.name]) ++ dataNames r
+def dataCaseNames : List CN → List Tok
   | [] => []
   | .mk a kids :: r =>
-    (if a.kind = .case then flatNames kids else [a.name]) ++ flatCaseNames r
+    (if a.kind = .case then dataNames kids else [a.name]) ++ dataCaseNames r
 end
+
+/-- a name in the list of choices of a node (`addChoice`): kept apart from the names of the child map -/
+def mark (n : Tok) : Tok := 0 :: n
+
+/-- `addChoiceToChoices`: the choices among the children of a container, list or module -/
+def choiceMarks (ks : List CN) : List Tok :=
+  ks.filterMap fun k => if k.attr.kind = .choice then some (mark k.attr.name) else none
+
+/-- `addToChoices(anyNode)`: every child of a choice (its cases) or of a case -/
+def kidMarks (ks : List CN) : List Tok := ks.map fun k => mark k.attr.name
+
+/-- everything `addChildren` of a container / list / module checks for redefinition: the names of its choices among
+    themselves, and the names of its data nodes (those of its choices' cases among them) -/
+def flatNames (ks : List CN) : List Tok := choiceMarks ks ++ dataNames ks
+/-- … of a choice: the names of its cases, and the data nodes of all of them -/
+def flatCaseNames (ks : List CN) : List Tok := kidMarks ks ++ dataCaseNames ks
+/-- … of a case: the names of its children (choices or not), and its data nodes -/
+def caseKidNames (ks : List CN) : List Tok := kidMarks ks ++ dataNames ks
 
 def firstDup : List Tok → Option Tok
   | [] => none
@@ -126,7 +144,7 @@ def firstDup : List Tok → Option Tok
 /-- `addChildren`: "redefinition of name" -/
 def checkNames (names : List Tok) : Except String Unit :=
   match firstDup names with
-  | some n => .error ("redefinition of name " ++ String.ofList (n.map Char.ofNat))
+  | some n => .error ("redefinition of name " ++ String.ofList ((if n.head? = some 0 then n.drop 1 else n).map Char.ofNat))
   | none => .ok ()
 
 mutual
@@ -165,7 +183,7 @@ def build (f : Attr → Bool) (env : FeatEnv) (inh : Inh) : A → Except String 
   | .case n m kids => do
     let i ← inherit { m with cfg := none } inh
     let ks ← buildKids f env i kids
-    checkNames (flatNames ks)
+    checkNames (caseKidNames ks)
     pure (.mk { kind := .case, name := n, cfg := i.cfg, st := i.st, ns := m.ns } ks)
 /-- `buildChildren`: ignore, build (with all its checks), then filter -/
 def buildKids (f : Attr → Bool) (env : FeatEnv) (inh : Inh) : List A → Except String (List CN)
